@@ -92,16 +92,35 @@ fn observe(book: &Spreadsheet, kind: Kind) -> Option<Obs> {
     }
 }
 
+/// What an element may already carry when a password is set: the legacy 16-bit hash AND a verifier written by another
+/// producer with other parameters (SHA-256, 1000 spins) - all of it must be replaced consistently.
 fn preset_legacy(book: &mut Spreadsheet, kind: Kind) {
+    const OLD_SALT: &str = "b2xkIHNhbHQgb2xkIHNhbHQ=";
+    const OLD_HASH: &str = "b2xkIGhhc2ggb2xkIGhhc2ggb2xkIGhhc2ggb2xkIGhhc2g=";
     match kind {
         Kind::Sheet => {
-            book.get_sheet_mut(&0).expect("sheet 0").get_sheet_protection_mut().set_password_raw(LEGACY);
+            let p = book.get_sheet_mut(&0).expect("sheet 0").get_sheet_protection_mut();
+            p.set_password_raw(LEGACY);
+            p.set_algorithm_name("SHA-256");
+            p.set_spin_count(1000);
+            p.set_salt_value(OLD_SALT);
+            p.set_hash_value(OLD_HASH);
         }
         Kind::Workbook => {
-            book.get_workbook_protection_mut().set_workbook_password_raw(LEGACY);
+            let p = book.get_workbook_protection_mut();
+            p.set_workbook_password_raw(LEGACY);
+            p.set_workbook_algorithm_name("SHA-256");
+            p.set_workbook_spin_count(1000);
+            p.set_workbook_salt_value(OLD_SALT);
+            p.set_workbook_hash_value(OLD_HASH);
         }
         Kind::Revisions => {
-            book.get_workbook_protection_mut().set_revisions_password_raw(LEGACY);
+            let p = book.get_workbook_protection_mut();
+            p.set_revisions_password_raw(LEGACY);
+            p.set_revisions_algorithm_name("SHA-256");
+            p.set_revisions_spin_count(1000);
+            p.set_revisions_salt_value(OLD_SALT);
+            p.set_revisions_hash_value(OLD_HASH);
         }
     }
 }
